@@ -163,6 +163,12 @@ private:
   inline static detail::thread_block_list<thread_control_block> global_thread_block_list;
   inline static thread_local thread_data local_thread_data;
 
+  // Incremented whenever a guard_ptr is copied, i.e., whenever an object becomes protected by an additional
+  // hazard pointer without being re-validated against a concurrent_ptr. A scan that overlaps with such a
+  // copy could otherwise miss the object (it may visit the new hazard pointer before it is set, and the
+  // original one after it has been released), so it has to be repeated.
+  inline static std::atomic<std::size_t> guard_copy_counter{0};
+
   ALLOCATION_TRACKING_FUNCTIONS;
 };
 
